@@ -15,6 +15,7 @@ import KojenVerif.Model.EngineSpec
 import KojenVerif.Model.Vpp
 import KojenVerif.Model.Uml
 import KojenVerif.Model.UmlInc
+import KojenVerif.Model.UmlTypes
 import KojenVerif.Lemmas.EngineWF
 import KojenVerif.Lemmas.EngineNestedWF
 import KojenVerif.Lemmas.EngineProto
@@ -714,6 +715,26 @@ def handle (j : Json) : Except String Json := do
       pure (Json.mkObj [("r", Json.arr #[jOpt r.to_, jOpt r.from_, jOpt r.guard, jOpt r.effect])])
     | "parseGuardName" => pure (Json.mkObj [("r", jOpt (Vpp.parseGuardName (← getStr j "blob")))])
     | o => throw s!"vppfn {o}"
+  | "umltypes" => do
+    -- which types a header includes / forward declares; prim / ptr / enum answers are passed in as lists
+    let prims ← getStrs j "prims"
+    let ptrs ← getStrs j "ptrs"
+    let enums ← getStrs j "enums"
+    let use (x : Json) : Except String UmlTypes.Use := do
+      match (← x.getArr?).toList with
+      | [t, m] => pure { type := ← asStr t, modifier := ← asStr m }
+      | _ => throw "use"
+    let attrs ← (← (← j.getObjVal? "attrs").getArr?).toList.mapM use
+    let ops ← (← (← j.getObjVal? "ops").getArr?).toList.mapM (fun o => do
+      let ps ← (← (← o.getObjVal? "params").getArr?).toList.mapM use
+      let rt ← use (← o.getObjVal? "ret")
+      pure (ps, rt))
+    let c : UmlTypes.Cls := { bases := ← getStrs j "bases", attrs := attrs, ops := ops,
+                              compositions := ← getStrs j "compositions", pointers := ← getStrs j "pointers" }
+    let prim := fun t => prims.contains t
+    let ptr := fun t => ptrs.contains t
+    let en := fun t => enums.contains t
+    pure (Json.mkObj [("notfwd", jStrs (UmlTypes.notFwd prim ptr en c)), ("fwd", jStrs (UmlTypes.fwd prim ptr en c))])
   | "umlinc" => do
     -- the include block of one header: holder namespace, the sorted set of types it needs complete, the diagram's class names
     pure (Json.mkObj [("text", jStr (Uml.includes (← getBool j "folders") (← getStr j "ns") (← getStrs j "types") (← getStrs j "names")))])
